@@ -76,6 +76,12 @@ TOWERS = {
     "type-list": ("", "", ""),
     "type-fn": ("", "", ""),
     "type-opt": ("", "", ""),
+    # UNCLOSED towers followed by two values without a separator: the parse fails at the innermost level and every enclosing alternative is retried
+    "list-unclosed": ("", "", ""),
+    "paren-unclosed": ("", "", ""),
+    "call-unclosed": ("", "", ""),
+    "map-unclosed": ("", "", ""),
+    "index-unclosed": ("", "", ""),
 }
 
 
@@ -106,6 +112,16 @@ def tower(kind, n):
         return "x: " + "fn(" * n + "int" + ")" * n + " = 1\n"
     if kind == "type-opt":
         return "x: int" + "?" * n + " = nil\n"
+    if kind == "list-unclosed":
+        return "x = " + "[" * n + " 1 2\n"
+    if kind == "paren-unclosed":
+        return "x = " + "(" * n + " 1 2\n"
+    if kind == "call-unclosed":
+        return "f = fn(a: int) -> int {\n\treturn a\n}\nx = " + "f(" * n + " 1 2\n"
+    if kind == "map-unclosed":
+        return "x = " + 'map[str, int] {"k": [' * n + " 1 2\n"
+    if kind == "index-unclosed":
+        return "a: [int...] = [1]\nx = a" + "[a" * n + " 1 2\n"
     raise ValueError(kind)
 
 
@@ -277,7 +293,7 @@ class C16(Check):
 
         def towers():
             for kind in TOWERS:
-                depths = (3, 12, 26) if kind == "type-list" else (3, 30, 120, 400, 1000, 1900)
+                depths = (3, 12, 26) if kind == "type-list" else ((3, 12, 18, 24, 40) if kind.endswith("-unclosed") else (3, 30, 120, 400, 1000, 1900))
                 for n in depths:
                     t = tower(kind, n)
                     if len(t) <= 4096:
